@@ -641,7 +641,9 @@ func C03(c *core.Ctx) {
 		cl.f(e, th)
 		c.Rep.Scenarios++
 	}
-	if !th && (c.NShards <= 1 || c.Shard == 0) {
+	if !th {
+		// every shard walks the list; roundTrip's mine() hands each packet to one of them
+		// (restricting the walk to shard 0 as well left that shard with one packet in sixteen)
 		e.class = "large-publish"
 		largePublish(e)
 	}
